@@ -456,6 +456,8 @@ func (p *Printer) Print(t *Term) string {
 	if len(t.Args) == 0 {
 		if t.IsVar {
 			p.used[strings.Trim(t.Op, "|")] = true
+		} else {
+			p.funs[t.Op] = true
 		}
 		return t.Op
 	}
@@ -520,6 +522,9 @@ func (p *Printer) printNoShare(t *Term) string {
 		return p.Print(t)
 	}
 	if len(t.Args) == 0 {
+		if !t.IsVar {
+			p.funs[t.Op] = true
+		}
 		return t.Op
 	}
 	var sb strings.Builder
